@@ -77,12 +77,18 @@ FirstVal(items, nm) == LET c == {i \in 1..Len(items) : Len(items[i].f) = 2 /\ it
   ELSE LET i == CHOOSE x \in c : \A y \in c : x <= y IN
        IF items[i].f[2].ty = "s" THEN [has |-> TRUE, v |-> items[i].f[2].v] ELSE [has |-> FALSE, v |-> <<>>]
 
-\* urlparse(location).netloc is empty
-NetlocEmpty(v) ==
+\* urlparse(location): the text after an optional scheme; its netloc (between "//" and the next "/", "?" or "#")
+AfterScheme(v) ==
   LET c == FindFrom(v, <<58>>, 1)
       sch == c > 1 /\ IsAlpha(v[1]) /\ \A i \in 1..(c - 1) : SchemeChar(v[i])
-      rest == IF sch THEN Drop(v, c) ELSE v
-  IN ~(Len(rest) >= 2 /\ rest[1] = 47 /\ rest[2] = 47) \/ Len(rest) = 2 \/ rest[3] \in {47, 63, 35}
+  IN IF sch THEN Drop(v, c) ELSE v
+RECURSIVE NetlocEnd(_, _)
+NetlocEnd(r, i) == IF i > Len(r) THEN i ELSE IF r[i] \in {47, 63, 35} THEN i ELSE NetlocEnd(r, i + 1)
+Netloc(v) == LET r == AfterScheme(v) IN
+  IF Len(r) >= 2 /\ r[1] = 47 /\ r[2] = 47 THEN SubSeq(r, 3, NetlocEnd(r, 3) - 1) ELSE <<>>
+NetlocEmpty(v) == Netloc(v) = <<>>
+\* urlsplit: ValueError("Invalid IPv6 URL") for a netloc with one bracket only
+LocRaises(v) == LET n == RangeOf(Netloc(v)) IN (91 \in n) # (93 \in n)
 
 HeaderWarns(items) ==
   LET et == FirstVal(items, N_ETAG)
@@ -91,9 +97,10 @@ HeaderWarns(items) ==
       upW == et.has /\ Len(et.v) >= 2 /\ et.v[1] = 87 /\ et.v[2] = 47
       b == IF lowW \/ upW THEN Drop(et.v, 2) ELSE et.v
       ecat == IF Mutant = "etag_wsgi_class" THEN WS ELSE HT
-  IN (IF lowW THEN <<Wn(HT, "ETagWeakCase")>> ELSE <<>>)
-  \o (IF et.has /\ (b = <<>> \/ b[1] # 34 \/ b[Len(b)] # 34) /\ Mutant # "no_etag_check" THEN <<Wn(ecat, "ETagUnquoted")>> ELSE <<>>)
-  \o (IF lo.has /\ NetlocEmpty(lo.v) THEN <<Wn(HT, "Location")>> ELSE <<>>)
+      we == (IF lowW THEN <<Wn(HT, "ETagWeakCase")>> ELSE <<>>)
+         \o (IF et.has /\ (b = <<>> \/ b[1] # 34 \/ b[Len(b)] # 34) /\ Mutant # "no_etag_check" THEN <<Wn(ecat, "ETagUnquoted")>> ELSE <<>>)
+  IN IF lo.has /\ LocRaises(lo.v) THEN [w |-> we, exc |-> "ValueError"]
+     ELSE [w |-> we \o (IF lo.has /\ NetlocEmpty(lo.v) THEN <<Wn(HT, "Location")>> ELSE <<>>), exc |-> ""]
 
 \* result of one application -> monitor call: warnings, exception seen by the application, events that reached
 \* the server side, result datum, and the monitor / server-stub state after it
@@ -114,7 +121,8 @@ ImplSR(a, s) ==
       wX == IF a.x = "bad" THEN <<Wn(WS, "ExcInfo")>> ELSE <<>>
       w6 == wD \o wF \o wL \o wH \o hl.w
       crlf == \E i \in 1..Len(a.hd.items) : \E c \in RangeOf(a.hd.items[i].f[2].v) : c \in {10, 13}   \* Headers(): ValueError
-      wAll == w6 \o wX \o HeaderWarns(a.hd.items)
+      hw == HeaderWarns(a.hd.items)
+      wAll == w6 \o wX \o hw.w
       x2 == IF Mutant = "drop_exc_info" THEN "none" ELSE a.x
       raised == IF x2 = "none" /\ s.sstarted THEN "AssertionError"
                 ELSE IF x2 # "none" /\ s.scommitted THEN "ExcInfoError" ELSE ""
@@ -123,6 +131,7 @@ ImplSR(a, s) ==
      ELSE IF ~ip.ok THEN Out(s, wD \o wF, "ValueError", <<>>)
      ELSE IF hl.exc # "" THEN Out(s, w6, hl.exc, <<>>)
      ELSE IF crlf THEN Out(s, w6 \o wX, "ValueError", <<>>)
+     ELSE IF hw.exc # "" THEN Out(s, wAll, hw.exc, <<>>)
      ELSE [Out(s, wAll, raised, <<ev>>) EXCEPT !.hset = <<[code |-> ip.val, hd |-> a.hd]>>,
                                               !.sstarted = (s.sstarted \/ raised = "")]
 
